@@ -90,8 +90,8 @@ def rand_derive(rng, cur, onames, pnames, live):
 
 def walk(rec, b, rng, steps, big):
     if big:
-        onames = [f'o{i}' for i in range(6)] + ['s1', 's2']
-        pnames = [f'p{i}' for i in range(6)] + ['s1', 's2']
+        onames = [f'o{i}' for i in range(5)] + ['o\u00e4\u0416', 's1', 's2']
+        pnames = [f'p{i}' for i in range(5)] + ['p\u00fc \u65e5', 's1', 's2']
     else:
         onames = ['a', 'b', 'c', 's']
         pnames = ['x', 'y', 'z', 's']
